@@ -67,6 +67,24 @@ def cases_c09g(gb, rng, tier):
                         mode = 'sync' if k % 3 else 'async:' + genrun.SCHEDULES[k % len(genrun.SCHEDULES)]
                         cases.append(dict(line=genrun.case_line('mem', cfg, tname, proto, mode, data), cfg=cfg, type=tname, proto=proto,
                                           mode=mode, n=len(data), nontrivial=True, model=False))
+            # deep nesting of a directly self-referential struct (finding F-09f): N field headers of the recursive field, then
+            # the stop bytes -- a well-formed message a few kilobytes long
+            d = sch.types[tname]
+            rec = [f for f in d.get('fields', []) if d['kind'] == 'struct' and sch.resolve(f['ty']) == ('ref', tname) and 0 < f['id'] < 15]
+            if rec:
+                fid = rec[0]['id']
+                for depth in ((60, 3000, 40000) if tier == 'quick' else (60, 500, 3000, 40000, 400000)):
+                    for proto in ('binary', 'binary_le', 'compact'):
+                        if proto == 'compact':
+                            unit = bytes([(fid << 4) | 12])
+                        elif proto == 'binary':
+                            unit = bytes([12, 0, fid])
+                        else:
+                            unit = bytes([12, fid, 0])
+                        data = unit * depth + b'\0' * (depth + 1)
+                        for mode in ('sync', 'async:1'):
+                            cases.append(dict(line=genrun.case_line('mem', cfg, tname, proto, mode, data), cfg=cfg, type=tname, proto=proto,
+                                              mode=mode, n=len(data), nontrivial=True, model=False, deep=depth))
     return cases
 
 
@@ -95,6 +113,9 @@ def eval_c09g(gb, case, out):
         cls = prealloc
         if genrun.is_arg_swallow(sch, case['cfg'], case['type'], case['mode']):
             cls = 'keep-is-arg-swallow'
+        if case.get('deep', 0) > 64:
+            # F-09f: the emitted decoders of a recursive schema recurse once per nesting level of the input, without bound
+            cls = 'recursive-schema-deep-nesting'
         return [('emitted decoder does not return on malformed input: %s' % (out or '')[:80], cls)]
     kind, peak = m.group(1), int(m.group(3))
     if kind in ('panic', 'hang'):
